@@ -138,10 +138,11 @@ def applySendsHT : List (Nat × Nat) → HT → HT
   | [], t => t
   | (s, r) :: rest, t => applySendsHT rest (sendHT s r t)
 
-/-- transfer function of the analysis.  `inStat i` = holder tree of input i (from the owner vector),
-    `owner r` = the party whose draw is "the" value of Random node r (an untrusted certificate). -/
-def hBase (inStat : Nat → HT) (owner : Nat → Nat) (henv : List HT) (n : Node) : HT :=
-  let args := n.deps.map (fun d => henv.getD d (.leaf PS.none))
+/-- transfer function of the analysis (without the send markers), over an arbitrary lookup of earlier
+    holder trees.  `inStat i` = holder tree of input i (from the owner vector), `owner r` = the party
+    whose draw is "the" value of Random node r (an untrusted certificate). -/
+def hBaseF (inStat : Nat → HT) (owner : Nat → Nat) (look : Nat → HT) (n : Node) : HT :=
+  let args := n.deps.map look
   match n.k with
   | .input i => inStat i
   | .random r => .leaf (PS.single (owner r))
@@ -149,6 +150,9 @@ def hBase (inStat : Nat → HT) (owner : Nat → Nat) (henv : List HT) (n : Node
   | .tupleGet j => nthHT j (args.headD (.leaf PS.none))
   | .nop => args.headD (.leaf PS.none)
   | .op _ => .leaf (args.foldl (fun acc t => PS.inter acc (meet t)) PS.all)
+
+def hBase (inStat : Nat → HT) (owner : Nat → Nat) (henv : List HT) (n : Node) : HT :=
+  hBaseF inStat owner (fun d => henv.getD d (.leaf PS.none)) n
 
 def hNode (inStat : Nat → HT) (owner : Nat → Nat) (henv : List HT) (n : Node) : HT :=
   applySendsHT n.sends (hBase inStat owner henv n)
@@ -181,5 +185,53 @@ def statusHT : Nat → HT
   | 2 => .leaf (PS.single 2)
   | 3 => .leaf PS.all
   | _ => .cons (.leaf ⟨true, false, true⟩) (.cons (.leaf ⟨true, true, false⟩) (.cons (.leaf ⟨false, true, true⟩) .nil))
+
+/- ---------------- the same analysis over a binary trie (O(log n) lookups for kernel evaluation) ---------------- -/
+
+/-- binary trie indexed by the bits of the key, least significant first, fixed depth -/
+inductive Trie (α : Type) where
+  | leaf
+  | node (v : Option α) (l r : Trie α)
+
+namespace Trie
+variable {α : Type}
+
+def get : Nat → Trie α → Nat → Option α
+  | _, .leaf, _ => none
+  | 0, .node v _ _, _ => v
+  | d + 1, .node _ l r, k => if k % 2 = 0 then get d l (k / 2) else get d r (k / 2)
+
+def set : Nat → Trie α → Nat → α → Trie α
+  | 0, .leaf, _, a => .node (some a) .leaf .leaf
+  | 0, .node _ l r, _, a => .node (some a) l r
+  | d + 1, .leaf, k, a =>
+    if k % 2 = 0 then .node none (set d .leaf (k / 2) a) .leaf else .node none .leaf (set d .leaf (k / 2) a)
+  | d + 1, .node v l r, k, a =>
+    if k % 2 = 0 then .node v (set d l (k / 2) a) r else .node v l (set d r (k / 2) a)
+
+end Trie
+
+/-- depth of the trie: graphs of up to 2^20 nodes -/
+def trieDepth : Nat := 20
+
+def hNodeT (inStat : Nat → HT) (owner : Nat → Nat) (env : Trie HT) (n : Node) : HT :=
+  applySendsHT n.sends
+    (hBaseF inStat owner (fun d => (Trie.get trieDepth env d).getD (.leaf PS.none)) n)
+
+/-- trie-based run: `i` = index of the next node -/
+def hRunT (inStat : Nat → HT) (owner : Nat → Nat) : List Node → Nat → Trie HT → Trie HT
+  | [], _, env => env
+  | n :: g, i, env => hRunT inStat owner g (i + 1) (Trie.set trieDepth env i (hNodeT inStat owner env n))
+
+def okRevealedT (inStat : Nat → HT) (owner : Nat → Nat) (g : List Node) (out : Nat) (outs : PS) : Bool :=
+  wellScoped g 0 && decide (g.length ≤ 2 ^ trieDepth) && decide (out < g.length) &&
+  PS.subset outs (meet ((Trie.get trieDepth (hRunT inStat owner g 0 .leaf) out).getD (.leaf PS.none)))
+
+def okSharedT (inStat : Nat → HT) (owner : Nat → Nat) (g : List Node) (out : Nat) : Bool :=
+  let t := (Trie.get trieDepth (hRunT inStat owner g 0 .leaf) out).getD (.leaf PS.none)
+  wellScoped g 0 && decide (g.length ≤ 2 ^ trieDepth) && decide (out < g.length) &&
+  PS.mem 0 (meet (nthHT 0 t)) && PS.mem 0 (meet (nthHT 1 t)) &&
+  PS.mem 1 (meet (nthHT 1 t)) && PS.mem 1 (meet (nthHT 2 t)) &&
+  PS.mem 2 (meet (nthHT 2 t)) && PS.mem 2 (meet (nthHT 0 t))
 
 end CCV.Know
